@@ -46,7 +46,10 @@ def _worker_run(task):
         prog = m.generate(rng, tier)
         prog['seed'] = seed_i
         prog['property'] = m.PROP
+        t_run = time.time()
         res = m.run(prog)
+        if time.time() - t_run > 60:
+            sys.stderr.write('slow run (%.0f s): run %s seed %s\n' % (time.time() - t_run, i, seed_i))
         res['i'] = i
         res['seed'] = seed_i
         if res.get('violations'):
@@ -356,7 +359,7 @@ def main(machine, argv=None):
         cov['samples'] = samples[:3] or cov.get('samples') or ['(no sample)']
         cov['runs_per_hour'] = int(ok_runs / max(run_s, 1e-9) * 3600)
         cov['seeds'] = {'batch_seed': seed, 'first_run': args.first, 'runs_submitted': done, 'derivation': 'sha256(property/batch_seed/i)[:8]'}
-        cov['inconclusive_runs'] = inconclusive
+        cov['inconclusive_runs'] = '%d of %d (runs ended by the wall-clock backstop; machine-load dependent, never judged)' % (inconclusive, done)
         cov['worker_pool_breakages'] = pool_breaks
         cov['operations_that_hit_the_address_space_limit'] = sorted(set(agg.get('world', {}).get('memory_errors', [])))
         cov['setup_s'] = round(setup_s, 2)
